@@ -345,6 +345,9 @@ func wlCellEvents(id int, sc Scenario, seed int64, pre *spg.WLRecipe, preWL *spg
 		}
 		ev.ND = len(ev.D)
 		ev.PathProd = Limbs(prod)
+		if out.CfgTouched {
+			ev.Cfg = 1
+		}
 		if len(ev.D) > 1200 {
 			ev.D, ev.Trunc = ev.D[:1200], 1
 		}
